@@ -75,6 +75,44 @@ def wf_jobs(prop, tier, rules=None, cell=(2024, 2), lift=True, timeout=None, ext
                             functions=[fn_id(body(name)), "ctparse.rule.rule.<wrapper> (real span update)"],
                             stubs=["regex matches are group stubs (presence pattern x numeric ranges derived from the live pattern AST)"],
                             lift="lift_step" if lift else None, site=name))
+    # pseudo rules on every reachable shape: accessors (WF-ACC) and latent post-processing (LATENT-WF)
+    if rules is None or "@acc" in rules or "@latent" in rules:
+        from .harness.common import PL, TY
+        shapes = [k for k in b["reach"] if k != "D"]
+        def pick(pseudo):
+            if tier != "quick":
+                return shapes
+            if prop != "C02":
+                return shapes[:: max(1, len(shapes) // 8)]
+            tshapes = [k for k in shapes if k.startswith("T:")]
+            ishapes = [k for k in shapes if k.startswith("I:")]
+            if pseudo == "@latent":
+                clock = [k for k in ishapes if "year" not in k and "hour" in k]
+                return tshapes + clock + [k for k in ishapes if k not in clock][::6]
+            return tshapes + ishapes[::3]
+        for pseudo, fnlist, allowed in (("@acc", [fn_id(TY.Time.start.fget), fn_id(TY.Time.end.fget), fn_id(TY.Time.dt.fget), fn_id(TY.Interval.start.fget), fn_id(TY.Interval.end.fget)], ["N"]),
+                                        ("@latent", [fn_id(PL.apply_postprocessing_rules), fn_id(PL._latent_tod), fn_id(PL._latent_time_interval)],
+                                         ["N", "T:year,month,day,hour,minute", "I:T:year,month,day,hour,minute|T:year,month,day,hour,minute"])):
+            if rules is not None and pseudo not in rules:
+                continue
+            if pseudo == "@latent" and prop not in ("C02", "C01"):
+                continue
+            if prop in ("C15", "C12") and pseudo == "@acc":
+                continue
+            for k in pick(pseudo):
+                spec = {"rule": pseudo, "args": [["art", k]], "allowed": allowed, "clauses": [c for c in (CLAUSES.get(prop) or ["exc", "wf", "span"]) if c != "closure"] + (["closure"] if prop == "C02" else []),
+                        "text_groups": []}
+                npod = k.count("POD")
+                if npod >= 2:
+                    spec["pods"] = mp
+                elif npod and tier == "quick":
+                    spec["pods"] = qp
+                if k.count("year"):
+                    spec["ym"] = [[2024, 2], [2023, 2]] if tier == "quick" else [[2023, 2], [2023, 12], [2024, 2], [2024, 4]]
+                env = {"VQ_PROP": prop, "VQ_SPEC": json.dumps(spec), "VQ_Y": str(cell[0]), "VQ_M": str(cell[1])}
+                jobs.append(Job("{}.WF[{}({})]".format(prop, pseudo, k), "vq.harness.h_wf", "ob_step", env=env, timeout=timeout or (150 if tier == "quick" else 600),
+                                bounds="every value of shape {} inside WF{}; ts: every instant of {}-{:02d}".format(k, "; dated fields in cells %s" % spec["ym"] if "ym" in spec else "", cell[0], cell[1]),
+                                functions=fnlist, lift="lift_step" if (lift and pseudo == "@latent") else None, site=pseudo))
     return jobs, b
 
 
